@@ -5,7 +5,7 @@
 -/
 import MdIt.Lemmas.C10DocCore
 
-namespace MdIt.Block
+namespace MdIt.Block.LE
 open MdIt.Lines (LineOffset linesT afterLine termOf flat mkOff offsetsOf lfToCrlf lfToCr)
 
 /-- two lists of (line, terminator) pairs laid out from `st₁` / `st₂`: the same lines, and every
@@ -335,4 +335,4 @@ theorem srel_fresh {ρ : Nat → Nat → Prop} {s₁ s₂ : List Char}
     exact erel_of_startRel h h₁ h₂
   · simp only [BState.fresh, hlen]
 
-end MdIt.Block
+end MdIt.Block.LE
